@@ -444,7 +444,7 @@ fn core() -> &'static Vec<FProg> {
 }
 
 pub fn total(tier: u8) -> usize {
-    core().len() + 3 + if tier == 0 { 100 } else { 4000 }
+    core().len() + 3 + if tier == 0 { 100 } else { 1500 }
 }
 
 pub fn prog_at(seed: u64, idx: usize) -> FProg {
